@@ -639,3 +639,20 @@ def weighted_sum_verdict(expr, step_param, row=0, table="tableau_final", scaled=
     if v.data[()] - want:
         return "bad", "it evaluates to %s, not %s" % (v.data[()].canon()[:140], want.canon()[:140])
     return "ok", "= %s for %d concrete stages" % (want.canon()[:80], NS)
+
+
+def with_stage_counts(fn_verdict, counts, *args, **kw):
+    """run a verdict function for several numbers of concrete stages; the first non-ok verdict wins"""
+    global NS
+    saved = NS
+    details = []
+    try:
+        for n in counts:
+            NS = n
+            v, d = fn_verdict(*args, **kw)
+            if v != "ok":
+                return v, "with %d stages: %s" % (n, d)
+            details.append(n)
+        return "ok", "stage i evaluated at (t0 + c_i h, y0 + h sum_j a_ij k_j) / weighted sums exact, for %s concrete stages, state axes abstract" % details
+    finally:
+        NS = saved
